@@ -761,7 +761,8 @@ impl Paragraph {
                     entries.push((current, Entry::cast(c.as_node().unwrap().clone()).unwrap()));
                     current = vec![];
                 }
-                ERROR | COMMENT => {
+                // A NEWLINE directly in a paragraph ends a comment line
+                ERROR | COMMENT | NEWLINE => {
                     current.push(c);
                 }
                 _ => {}
